@@ -211,9 +211,14 @@ def _work_seq(task) -> core.Part:
     for rest in itertools.product(sub, repeat=2):
         seq = (first,) + rest
         a = autodecoder.AutoDecoder()
+        twin = autodecoder.AutoDecoder()  # a second instance used in alternation: instances must not share state
         state = digest(a)
         for i, key in enumerate(seq):
             payload = ev[key][0]
+            try:
+                twin.decode_message_payload(ev[sub[(len(key) + i) % len(sub)]][0])
+            except Exception:  # noqa: BLE001
+                pass
             k, res, _ = budget.run_budget(lambda: a.decode_message_payload(payload), budget.budget_for(len(payload)) * 8)
             p.add("transitions")
             want = table.get((state, key))
